@@ -336,7 +336,7 @@ def run(ctx):
         hist = []
         for ops in CORPUS:
             hist.append(run_history(ctx, mod, ops))
-        for _ in range(ctx.n(500, 8000)):
+        for _ in range(ctx.n(1500, 30000)):
             hist.append(run_history(ctx, mod, ctx.rng.choice([1, 2, 3, 4, 5, 6, 8, 10, 12]), ctx.rng))
         lines = [str(r) for h in hist for r in h[2]]
         replies = ctx.model("C37", lines)
